@@ -26,6 +26,7 @@ pub fn opt_u32(v: &Value) -> Option<u32> {
 pub fn opt_price(v: &Value) -> Option<u32> {
     match v.as_i64() {
         Some(x) if x == crate::SPEC_MAX_PRICE => Some(u32::MAX),
+        Some(x) if x > 0 => opt_u32(v).map(|p| p.checked_add(crate::price_offset()).expect("harness: price offset too large")),
         _ => opt_u32(v),
     }
 }
